@@ -357,8 +357,9 @@ def sig_equal_abstract(a, b):
 def short(mu):
     k = mu['k']
     if k in ('Add', 'Chg'):
+        attrs = as_dict(mu['attrs'])
         return '%s(%s.%s %s %s init=%s)' % (k, mu['m'], mu['f'], mu['ftype'],
-                                            as_dict(mu['attrs']), mu['init'])
+                                            dict(sorted(attrs.items())), mu['init'])
     if k == 'Del':
         return 'Del(%s.%s)' % (mu['m'], mu['f'])
     if k == 'RenF':
@@ -368,5 +369,6 @@ def short(mu):
     if k == 'DelM':
         return 'DelM(%s)' % mu['m']
     if k == 'Meta':
-        return 'Meta(%s %s %s%s)' % (mu['m'], mu['prop'], mu['val'], mu['ival'] or '')
+        ival = [sorted(as_dict(x).items()) for x in (mu['ival'] or [])]
+        return 'Meta(%s %s %s%s)' % (mu['m'], mu['prop'], mu['val'], ival or '')
     return k
